@@ -197,6 +197,9 @@ def run(case, ctx):
                     at_pmax = abs(pref_total + base_dp - p_max) <= 1e-5
                     at_gmax = abs(base_gain - (gmax + ext)) <= 1e-5
                     sat_justified = at_pmax or (auto_selected and at_gmax)
+                    # recorded finding: in gain mode the saturation test ignores the input VOA and reduces in_voa too much
+                    invoa_shape = (not power_mode) and in_voa > 0 and abs(pref_total + base_dp + in_voa - p_max) <= 1e-5
+                    suffix = ':gain-mode-in-voa' if invoa_shape else ''
                     if next_is_amp:
                         ctx.label('amp:followed-by-amp-not-judged')
                     elif power_mode or u_gain is None:
@@ -207,7 +210,7 @@ def run(case, ctx):
                                     interesting = True
                                     ctx.label('rule:user-dp-reduced')
                                 else:
-                                    ctx.violation('operator-delta-p-not-kept', f'{x.uid}: user {u_dp} designed {base_dp:.6f} '
+                                    ctx.violation('operator-delta-p-not-kept' + suffix, f'{x.uid}: user {u_dp} designed {base_dp:.6f} '
                                                                                f'total {pref_total + base_dp:.4f} p_max {p_max}')
                         else:
                             xval = 0.0 if before_roadm else slope * (next_loss - ref_loss)
@@ -228,7 +231,7 @@ def run(case, ctx):
                                     interesting = True
                                     ctx.label('rule:reduced-by-saturation')
                                 else:
-                                    ctx.violation('power-rule-not-followed',
+                                    ctx.violation('power-rule-not-followed' + suffix,
                                                   f'{x.uid}: offset {rule:.4f} for next span loss {next_loss:.4f} dB '
                                                   f'(slope {slope}, ref {ref_loss}, range {lo}..{hi} step {step}, '
                                                   f'before_roadm={before_roadm}); total {pref_total + base_dp:.3f} p_max {p_max} '
@@ -242,7 +245,7 @@ def run(case, ctx):
                                 interesting = True
                                 ctx.label('rule:user-gain-reduced')
                             else:
-                                ctx.violation('operator-gain-not-kept', f'{x.uid}: user {u_gain} designed {base_gain:.6f}')
+                                ctx.violation('operator-gain-not-kept' + suffix, f'{x.uid}: user {u_gain} designed {base_gain:.6f}')
                     if x.out_voa:
                         interesting = True
                     expected_out[x.uid] = pref + dp - x.out_voa
